@@ -32,10 +32,12 @@ def dbname(platform):
 
 
 def gen(rng, n_tus=None, n_platforms=None, outside=False, missing=0.0, toggles=True, subdir=True,
-        forced=True, computed=True, big=False, findable=False, deep=0):
+        forced=True, computed=True, big=False, findable=False, deep=0, casepair=False):
     """deep=N: the first translation unit also includes a chain of N headers nested N levels deep (each level holds
     code and a macro test; the innermost one defines a macro the translation unit tests afterwards and includes
-    ordinary -- possibly missing -- headers).  gcc's nesting limit is 200."""
+    ordinary -- possibly missing -- headers).  gcc's nesting limit is 200.
+    casepair: two different headers whose names differ only in letter case sit beside the first translation unit,
+    which includes both."""
     dirs = ["src"] + (["src/sub"] if subdir and rng.random() < 0.7 else []) + INC_DIRS
     if outside:
         dirs.append("@out/ext")
@@ -139,6 +141,13 @@ def gen(rng, n_tus=None, n_platforms=None, outside=False, missing=0.0, toggles=T
                                                        ["elif", "!defined(REP2)", [["define", "REP2", None], ["code"], ["include", "q", "rep.h"]]],
                                                        ["else", None, [["code"]]]]], ["code"]]
             body += [["include", rng.choice("qa"), "rep.h"], ["chain", [["ifdef", "REP2", [["code"]]], ["else", None, [["code"]]]]]]
+        if casepair and t == 0:
+            files[f"{d}/CaseP.h"] = [["code"], ["define", "CASE_UP", None]]
+            files[f"{d}/casep.h"] = [["code"], ["code"], ["define", "CASE_LO", None], ["code"]]
+            first, second = rng.sample(["CaseP.h", "casep.h"], 2)
+            body += [["include", "q", first], ["code"], ["include", "q", second],
+                     ["chain", [["ifdef", "CASE_UP", [["code"]]], ["else", None, [["code"]]]]],
+                     ["chain", [["ifdef", "CASE_LO", [["code"]]], ["else", None, [["code"]]]]]]
         if deep and t == 0:
             for k in range(deep):
                 hb = [["code"]] + detectors(1)
